@@ -645,6 +645,41 @@ var misfits = []misfit{
 
 var numericMisfit = map[string]bool{"300": true, "-1": true, "maxint64": true, "1.5": true, "1e300": true, "byte(9)": true}
 
+// The numbers at the edges of every Go integer and float type, as script ints and as script floats: the last
+// one that fits and the first one that does not, at both ends of int8 .. int64, uint8 .. uint64, the exact
+// integer range of float32 and float64, and the largest float32.
+func init() {
+	add := func(name string, o object.Object) {
+		misfits = append(misfits, misfit{name, func() object.Object { return o }})
+		numericMisfit[name] = true
+	}
+	for _, w := range []uint{8, 16, 32, 64} {
+		half := math.Ldexp(1, int(w-1)) // 2^(w-1)
+		full := math.Ldexp(1, int(w))   // 2^w
+		for i, f := range []float64{half - 1, half, -half, -half - 1, full - 1, full} {
+			if w == 64 && (i == 0 || i == 3 || i == 4) {
+				continue // not representable as a float64: the same float as its neighbour
+			}
+			add(fmt.Sprintf("float(%s)", strconv.FormatFloat(f, 'f', -1, 64)), object.NewFloat(f))
+			if f >= -9223372036854775808.0 && f < 9223372036854775808.0 {
+				add(fmt.Sprintf("int(%d)", int64(f)), object.NewInt(int64(f)))
+			}
+		}
+	}
+	add("int(minint64)", object.NewInt(math.MinInt64))
+	add("float(2^63-1024)", object.NewFloat(9223372036854774784.0)) // the largest float below 2^63
+	add("float(-2^63-2048)", object.NewFloat(-9223372036854777856.0)) // the first float below -2^63
+	add("int(2^24+1)", object.NewInt(1<<24+1))
+	add("int(2^53+1)", object.NewInt(1<<53+1))
+	add("float(2^24+1)", object.NewFloat(1<<24+1))
+	add("float(maxfloat32)", object.NewFloat(math.MaxFloat32))
+	add("float(maxfloat32*2)", object.NewFloat(math.MaxFloat32*2))
+	add("float(1e-50)", object.NewFloat(1e-50))
+	add("float(-0.5)", object.NewFloat(-0.5))
+	add("float(NaN)", object.NewFloat(math.NaN()))
+	add("float(+Inf)", object.NewFloat(math.Inf(1)))
+}
+
 func isNumericKind(k reflect.Kind) bool {
 	switch k {
 	case reflect.Int, reflect.Int8, reflect.Int16, reflect.Int32, reflect.Int64, reflect.Uint, reflect.Uint8, reflect.Uint16,
@@ -674,11 +709,35 @@ func (a *acc) routeMisfit(s *spec, m *misfit, which string) {
 	// a number written to a numeric field, or passed to Echo, comes back as the number it was - or the write
 	// is refused; what does not fit (300 into an int8, 1.5 into an int, 1e300 into a float32) must not be cut to size
 	numeric := numericMisfit[m.name] && isNumericKind(s.t.Kind())
+	// q is what has to come back: p itself, except that a float target holds the nearest float of its size
+	// (rounding is how Go converts, 0.1 has no float32 either); a finite number that no float of that size is
+	// near to (beyond the largest float32) stays p, which nothing accepted can equal
+	q := m.mk()
+	if numeric && (s.t.Kind() == reflect.Float32 || s.t.Kind() == reflect.Float64) {
+		var pf float64
+		switch v := q.(type) {
+		case *object.Int:
+			pf = float64(v.Value())
+		case *object.Float:
+			pf = v.Value()
+		case *object.Byte:
+			pf = float64(v.Value())
+		}
+		if s.t.Kind() == reflect.Float32 {
+			if r := float64(float32(pf)); !math.IsInf(r, 0) || math.IsInf(pf, 0) {
+				pf = r
+			}
+		}
+		q = object.NewFloat(pf)
+		if math.IsNaN(pf) {
+			numeric = false // NaN equals nothing, itself included: only "no panic"
+		}
+	}
 	if which == "write" {
-		g = map[string]any{"s": holderOf(s, reflect.Zero(s.t)).Interface(), "p": m.mk()}
+		g = map[string]any{"s": holderOf(s, reflect.Zero(s.t)).Interface(), "p": m.mk(), "q": q}
 		src = "s.F = p"
 		if numeric {
-			src = "s.F = p\ns.F == p"
+			src = "s.F = p\ns.F == q"
 		}
 	} else {
 		mk, ok := holders[s.t]
@@ -687,10 +746,10 @@ func (a *acc) routeMisfit(s *spec, m *misfit, which string) {
 		}
 		var h any
 		h, rec = mk()
-		g = map[string]any{"h": h, "p": m.mk()}
+		g = map[string]any{"h": h, "p": m.mk(), "q": q}
 		src = "h.Echo(p)"
 		if numeric {
-			src = "h.Echo(p) == p"
+			src = "h.Echo(p) == q"
 		}
 	}
 	a.Evals++
